@@ -523,7 +523,8 @@ def exhaustive_specs(tier):
 # ------------------------------------------------------------------ numeric side
 NTAGS = {
     31: 'validate_parameters differs from model', 32: 'nearest_valid_parameters differs from model',
-    33: 'Model.create initial estimates differ from canonicalize model', 34: 'parameters_sdcorr differs from model',
+    33: 'Model.create initial estimates differ from canonicalize model',
+    37: 'Model.replace initial estimates differ from the canonicalised pair (replace call structure)', 34: 'parameters_sdcorr differs from model',
     35: '_scale_matrix differs from model', 36: '_descale_matrix / from_ucp differs from model',
     41: 'a covariance block of the model initial estimates is not positive semidefinite',
     42: 'valid initial estimates were altered', 43: 'sd/corr form does not convert back to the covariance block',
@@ -531,16 +532,16 @@ NTAGS = {
     45: 'is_positive_semidefinite disagrees with the exact rational test (outside the tolerance band)',
     46: 'nearest_positive_semidefinite result is not positive semidefinite', 47: 'repaired matrix not symmetric',
 }
-NCORR = (31, 32, 33, 34, 35, 36)
+NCORR = (31, 32, 33, 34, 35, 36, 37)
 NORACLE = {41: (NCORR, None, None), 42: (NCORR, None, None), 43: (NCORR, None, None),
            44: ((35, 36), 241, 'C11-UCP-NEGATIVE-COVARIANCE'), 45: (NCORR, None, None),
            46: (NCORR, None, None), 47: (NCORR, None, None)}
 NIMPORTS = 'Base.PyData Base.Expr C11.Model C11.NumModel C11.NumCheck'
 
 
-def gen_block_values(rng, n):
+def gen_block_values(rng, n, force=None):
     """A symmetric n x n matrix of small rationals, of a chosen definiteness class."""
-    cls = rng.choice(['pd', 'pd', 'pd_nonneg', 'indefinite', 'indefinite', 'singular', 'diag'])
+    cls = force or rng.choice(['pd', 'pd', 'pd_nonneg', 'indefinite', 'indefinite', 'singular', 'diag'])
     L = [[F(0)] * n for _ in range(n)]
     for i in range(n):
         for j in range(i + 1):
@@ -568,21 +569,62 @@ def gen_block_values(rng, n):
     return cls, [[str(x) for x in row] for row in A]
 
 
+def sym_matrix(ns, pre):
+    n = len(ns)
+    return [[f"{pre}_{ns[max(i, j)]}_{ns[min(i, j)]}" for j in range(n)] for i in range(n)]
+
+
+def partition(rng, items, sizes=(1, 1, 2, 2, 3)):
+    out, i = [], 0
+    while i < len(items):
+        k = min(rng.choice(sizes), len(items) - i)
+        out.append(items[i:i + k])
+        i += k
+    return out
+
+
+def gen_paramset(rng, etas, iov_m, eps, force=None):
+    """Values for every symbol O_i_j over all eta pairs, the shared IOV template OI_*, and the eps block
+    (force = definiteness class of the eta part)."""
+    vals = {}
+    classes = []
+    for ns, pre in ((etas, 'O'), ([f'I{k + 1}' for k in range(iov_m)], 'OI'), (eps, 'S')):
+        if not ns:
+            continue
+        cls, A = gen_block_values(rng, len(ns), force if pre == 'O' else None)
+        classes.append(cls)
+        sm = sym_matrix(ns, pre)
+        for i in range(len(ns)):
+            for j in range(i + 1):
+                vals[sm[i][j]] = A[i][j]
+    return vals, classes
+
+
 def gen_num_spec(rng):
-    nvar = rng.choice([1, 2, 3, 4, 5, 6])
-    blocks = []
-    i = 0
-    k = 0
-    while i < nvar:
-        n = min(rng.choice([1, 1, 2, 2, 3]), nvar - i)
-        cls, vals = gen_block_values(rng, n)
-        blocks.append({'names': [f'ETA{i + a + 1}' for a in range(n)], 'level': rng.choice(['IIV', 'IIV', 'IOV']),
-                       'values': vals, 'cls': cls, 'joint1': rng.random() < 0.2})
-        i += n
-    neps = rng.choice([1, 1, 2])
-    cls, vals = gen_block_values(rng, neps)
-    blocks.append({'names': [f'EPS{a + 1}' for a in range(neps)], 'level': 'RUV', 'values': vals, 'cls': cls,
-                   'joint1': False})
+    """v2 numeric spec: eta/eps names, alternative random-variable layouts over the same parameter symbols
+    (symbol of the pair (i, j) is fixed, so any grouping is meaningful), parameter value sets, and a history of
+    Model.replace steps.  IOV layouts repeat one symbolic block for every occasion (shared parameters)."""
+    netas = rng.choice([1, 2, 3, 3, 4, 4, 5])
+    etas = [f'ETA{i + 1}' for i in range(netas)]
+    eps = [f'EPS{i + 1}' for i in range(rng.choice([1, 1, 2]))]
+    iov_m = rng.choice([0, 0, 1, 2, 2])
+    nocc = rng.choice([2, 3]) if iov_m else 0
+
+    def layout(groups):
+        blocks = []
+        for g in groups:
+            blocks.append({'names': g, 'level': 'IIV', 'joint1': rng.random() < 0.15,
+                           'sym': [[f"O_{max(a, b, key=etas.index)}_{min(a, b, key=etas.index)}" for b in g] for a in g]})
+        tmpl = [f'I{k + 1}' for k in range(iov_m)]
+        for o in range(nocc):
+            blocks.append({'names': [f'ETAIOV{o + 1}x{k + 1}' for k in range(iov_m)], 'level': 'IOV',
+                           'joint1': iov_m == 1 and rng.random() < 0.3, 'sym': sym_matrix(tmpl, 'OI')})
+        blocks.append({'names': eps, 'level': 'RUV', 'joint1': False, 'sym': sym_matrix(eps, 'S')})
+        return blocks
+    joint = layout(partition(rng, etas))
+    indep = layout([[e] for e in etas])
+    other = layout(partition(rng, etas, sizes=(1, 2, 3, 4)))
+    mode = rng.choice(['single', 'single', 'two_step', 'two_step', 'history'])
     thetas = []
     for t in range(rng.choice([0, 1, 2, 3])):
         lower = rng.choice([None, 0, -1, 0, -5])
@@ -593,7 +635,57 @@ def gen_num_spec(rng):
         init = min(max(init, F(lo) + F(1, 4)), F(up) - F(1, 4))
         thetas.append({'name': f'TH{t + 1}', 'init': str(init), 'lower': lower, 'upper': upper,
                        'fix': rng.random() < 0.15})
-    return {'kind': 'num', 'blocks': blocks, 'thetas': thetas}
+    p0, c0 = gen_paramset(rng, etas, iov_m, eps, force='indefinite' if mode == 'two_step' and rng.random() < 0.7 else None)
+    p1, c1 = gen_paramset(rng, etas, iov_m, eps, force=rng.choice([None, 'indefinite']))
+    p2, c2 = gen_paramset(rng, etas, iov_m, eps)
+    if mode == 'single':
+        layouts, steps = [joint, indep, other], []
+    elif mode == 'two_step':
+        # covariance values that are harmless while the etas are independent, then the joint layout alone
+        layouts = [indep, joint, other]
+        steps = [{'s': 'rvs', 'layout': 1}]
+        if rng.random() < 0.5:
+            steps = [{'s': 'params', 'set': 1}] + steps
+        if rng.random() < 0.4:
+            steps.append({'s': rng.choice(['none', 'params']), 'set': 2})
+    else:
+        layouts = [rng.choice([joint, indep]), joint, other]
+        steps = []
+        for _ in range(rng.choice([1, 2, 3, 4])):
+            k = rng.choice(['rvs', 'params', 'both', 'none'])
+            steps.append({'s': k, 'layout': rng.randrange(3), 'set': rng.randrange(3)})
+    return {'kind': 'num', 'v': 2, 'etas': etas, 'eps': eps, 'layouts': layouts, 'paramsets': [p0, p1, p2],
+            'thetas': thetas, 'steps': steps, 'classes': c0 + c1 + c2, 'mode': mode}
+
+
+def gen_pheno_spec(rng):
+    """Modelling-level history on the pheno example (create_joint_distribution, set_initial_estimates,
+    split_joint_distribution, replace(random_variables=...) alone)."""
+    cov = rng.choice(['1/2', '-1/2', '1/100', '3/100', '-3/100', '1'])
+    etas = ['ETA_CL', 'ETA_VC']
+    plan = rng.choice([
+        [['cjd', etas], ['sie', {'IIV_CL_IIV_VC': cov}], ['split', etas]],
+        [['cjd', etas], ['rvs_indep', etas], ['sie', {'IIV_CL_IIV_VC': cov}], ['rvs_joint']],
+        [['cjd', etas], ['sie', {'IIV_CL_IIV_VC': cov, 'IIV_CL': '1/100'}], ['rvs_indep', etas], ['rvs_joint']],
+    ])
+    return {'kind': 'num', 'v': 2, 'pheno': plan, 'layouts': [], 'paramsets': [], 'thetas': [], 'steps': [],
+            'classes': [], 'mode': 'pheno'}
+
+
+def upgrade_num_spec(spec):
+    """Old numeric specs (one layout given by blocks with values) in the v2 format."""
+    if spec.get('v') == 2:
+        return spec
+    blocks, vals = [], {}
+    for b in spec['blocks']:
+        ns = b['names']
+        sm = sym_matrix(ns, 'S' if b['level'] == 'RUV' else 'O')
+        blocks.append({'names': ns, 'level': b['level'], 'joint1': b.get('joint1', False), 'sym': sm})
+        for i in range(len(ns)):
+            for j in range(i + 1):
+                vals[sm[i][j]] = b['values'][i][j]
+    return {'kind': 'num', 'v': 2, 'layouts': [blocks], 'paramsets': [vals], 'thetas': spec['thetas'], 'steps': [],
+            'classes': [b.get('cls', '?') for b in spec['blocks']], 'mode': 'single'}
 
 
 def fq(x):
@@ -606,17 +698,56 @@ def qmat(M):
 
 def observe_num(spec, mutate=None):
     import numpy as np
-    from pharmpy.internals.math import is_positive_semidefinite, nearest_positive_semidefinite
+    import pharmpy.internals.math as pmath
     from pharmpy.model import (JointNormalDistribution, Model, NormalDistribution, Parameter, Parameters,
                                RandomVariables)
-    from pharmpy.modeling import calculate_parameters_from_ucp, calculate_ucp_scale
+    from pharmpy.modeling import calculate_parameters_from_ucp, calculate_ucp_scale, set_initial_estimates
     from pharmpy.modeling import estimation as est
-    if mutate:
-        est, is_positive_semidefinite, nearest_positive_semidefinite = mutate(est, is_positive_semidefinite,
-                                                                             nearest_positive_semidefinite)
+    spec = upgrade_num_spec(spec)
     names = ct.Names()
     names.get('ZERO')
-    dists, params, terms = [], [], []
+
+    def rvs_term(rvs):
+        """Any RandomVariables whose variance entries are parameter symbols."""
+        terms = []
+        for d in rvs:
+            lev = ct.pos(level_id(d.level, names))
+            if isinstance(d, NormalDistribution):
+                terms.append(f"(Normal {names.p(d.names[0])} {lev} 1%positive {names.p(d.variance.name)})")
+            else:
+                V = d.variance
+                rows = ct.lst([ct.lst([names.p(V[i, j].name) for j in range(V.cols)]) for i in range(V.rows)])
+                terms.append(f"(Joint {ct.lst([names.p(x) for x in d.names])} {lev} "
+                             f"{ct.lst(['1%positive'] * len(d.names))} {rows})")
+        return ct.lst(terms)
+
+    def build_rvs(layout):
+        dists, terms = [], []
+        for b in layout:
+            ns, sym = b['names'], b['sym']
+            n = len(ns)
+            lev = ct.pos(LEVELS[b['level']])
+            if n == 1 and not b['joint1']:
+                dists.append(NormalDistribution.create(ns[0], b['level'], 0, sympy.Symbol(sym[0][0])))
+                terms.append(f"(Normal {names.p(ns[0])} {lev} 1%positive {names.p(sym[0][0])})")
+            else:
+                dists.append(JointNormalDistribution.create(ns, b['level'], [0] * n,
+                                                            [[sympy.Symbol(x) for x in row] for row in sym]))
+                rows = ct.lst([ct.lst([names.p(x) for x in row]) for row in sym])
+                terms.append(f"(Joint {ct.lst([names.p(x) for x in ns])} {lev} {ct.lst(['1%positive'] * n)} {rows})")
+        return RandomVariables.create(dists), ct.lst(terms)
+
+    def pdict(d):
+        return ct.lst([ct.pair(names.p(k), fq(v)) for k, v in d.items()])
+
+    symbols = []
+    for lay in spec['layouts']:
+        for b in lay:
+            for row in b['sym']:
+                for x in row:
+                    if x not in symbols:
+                        symbols.append(x)
+    params = []
     for t in spec['thetas']:
         kw = {}
         if t['lower'] is not None:
@@ -624,51 +755,98 @@ def observe_num(spec, mutate=None):
         if t['upper'] is not None:
             kw['upper'] = t['upper']
         params.append(Parameter.create(t['name'], float(F(t['init'])), fix=t['fix'], **kw))
-    for b in spec['blocks']:
-        ns = b['names']
-        n = len(ns)
-        pre = 'S' if b['level'] == 'RUV' else 'O'
-        sym = [[f"{pre}_{ns[max(i, j)]}_{ns[min(i, j)]}" for j in range(n)] for i in range(n)]
-        lev = ct.pos(LEVELS[b['level']])
-        if n == 1 and not b['joint1']:
-            dists.append(NormalDistribution.create(ns[0], b['level'], 0, sympy.Symbol(sym[0][0])))
-            terms.append(f"(Normal {names.p(ns[0])} {lev} 1%positive {names.p(sym[0][0])})")
+    for x in symbols:
+        params.append(Parameter.create(x, float(F(spec['paramsets'][0][x]))))
+    psd_tab, rep_tab, seen = [], [], set()
+
+    def tabulate(rvs, values, with_repair=True):
+        for d in rvs:
+            if isinstance(d, JointNormalDistribution):
+                A = d.variance.subs(values).to_numpy()
+                key = (with_repair, A.tobytes())
+                if key in seen:
+                    continue
+                seen.add(key)
+                ok = bool(pmath.is_positive_semidefinite(A))
+                psd_tab.append(ct.pair(qmat(A), ct.boolean(ok)))
+                if with_repair:
+                    B = pmath.nearest_positive_semidefinite(A.copy()) if not ok else A
+                    rep_tab.append(ct.pair(qmat(A), qmat(B)))
+
+    stages = []
+    info = {'classes': spec.get('classes', []), 'mode': spec.get('mode', 'single'), 'valid': [], 'steps': []}
+
+    def stage(p_in, rvs, given_p, rterm, model):
+        tabulate(rvs, p_in)
+        valid = bool(rvs.validate_parameters(p_in))
+        nearest = rvs.nearest_valid_parameters(p_in)
+        out = dict(model.parameters.inits)
+        tabulate(rvs, out, with_repair=False)
+        info['valid'].append(valid)
+        stages.append(f"(mkNStage {ct.opt(pdict(p_in)) if given_p else 'None'} {ct.opt(rterm) if rterm else 'None'} "
+                      f"{ct.boolean(valid)} {pdict(nearest)} {pdict(out)})")
+
+    if 'pheno' in spec:
+        # modelling-level history on the pheno example: every resulting model is exported as a stage whose
+        # given attributes are its own (inits, random variables): a model that was left un-canonicalised
+        # shows as tags 37 / 41
+        from pharmpy.modeling import create_joint_distribution, load_example_model, split_joint_distribution
+        model = load_example_model('pheno')
+        joint_rvs = None
+        for op in spec['pheno']:
+            k = op[0]
+            info['steps'].append(k)
+            if k == 'cjd':
+                model = create_joint_distribution(model, list(op[1]))
+                joint_rvs = model.random_variables
+            elif k == 'split':
+                model = split_joint_distribution(model, list(op[1]))
+            elif k == 'sie':
+                model = set_initial_estimates(model, {x: float(F(v)) for x, v in op[1].items()})
+            elif k == 'rvs_indep':      # replace(random_variables=...) alone; the covariance parameter stays
+                model = model.replace(random_variables=model.random_variables.unjoin(list(op[1])))
+            elif k == 'rvs_joint':
+                model = model.replace(random_variables=joint_rvs)
+            rvs = model.random_variables
+            stage(dict(model.parameters.inits), rvs, True, rvs_term(rvs), model)
+        spec = dict(spec, steps=[])
+    else:
+        rvs, rterm = build_rvs(spec['layouts'][0])
+        ps = Parameters.create(params)
+        model = Model.create(name='m', parameters=ps, random_variables=rvs)
+        stage(dict(ps.inits), rvs, True, rterm, model)
+    for st in spec['steps']:
+        k = st['s']
+        info['steps'].append(k)
+        vals = {x: float(F(v)) for x, v in spec['paramsets'][st.get('set', 0)].items() if x in symbols}
+        if k == 'rvs':
+            rvs, rterm = build_rvs(spec['layouts'][st['layout']])
+            p_in = dict(model.parameters.inits)
+            model = model.replace(random_variables=rvs)
+            stage(p_in, rvs, False, rterm, model)
+        elif k == 'params':
+            p_in = dict(model.parameters.set_initial_estimates(vals).inits)
+            model = set_initial_estimates(model, vals)
+            stage(p_in, rvs, True, None, model)
+        elif k == 'both':
+            rvs, rterm = build_rvs(spec['layouts'][st['layout']])
+            newp = model.parameters.set_initial_estimates(vals)
+            p_in = dict(newp.inits)
+            model = model.replace(parameters=newp, random_variables=rvs)
+            stage(p_in, rvs, True, rterm, model)
         else:
-            dists.append(JointNormalDistribution.create(ns, b['level'], [0] * n,
-                                                        [[sympy.Symbol(x) for x in row] for row in sym]))
-            rows = ct.lst([ct.lst([names.p(x) for x in row]) for row in sym])
-            terms.append(f"(Joint {ct.lst([names.p(x) for x in ns])} {lev} {ct.lst(['1%positive'] * n)} {rows})")
-        for i in range(n):
-            for j in range(i + 1):
-                params.append(Parameter.create(sym[i][j], float(F(b['values'][i][j]))))
-    rvs = RandomVariables.create(dists)
-    ps = Parameters.create(params)
-    inits = dict(ps.inits)
-    info = {'classes': [b['cls'] for b in spec['blocks']], 'nvars': rvs.nrvs}
-
-    def pdict(d):
-        return ct.lst([ct.pair(names.p(k), fq(v)) for k, v in d.items()])
-
-    psd_tab, rep_tab = [], []
-    for d in rvs:
-        if isinstance(d, JointNormalDistribution):
-            A = d.variance.subs(inits).to_numpy()
-            ok = bool(is_positive_semidefinite(A))
-            B = nearest_positive_semidefinite(A.copy()) if not ok else A
-            psd_tab.append(ct.pair(qmat(A), ct.boolean(ok)))
-            rep_tab.append(ct.pair(qmat(A), qmat(B)))
-    valid = bool(rvs.validate_parameters(inits))
-    nearest = rvs.nearest_valid_parameters(inits)
-    model = Model.create(name='m', parameters=ps, random_variables=rvs)
+            p_in = dict(model.parameters.inits)
+            model = model.replace(name='renamed')
+            stage(p_in, rvs, False, None, model)
     minits = dict(model.parameters.inits)
-    info['valid'] = valid
-    # blocks under the model's initial estimates: PSD table for them as well (oracle 45 uses it)
+    info['nvars'] = rvs.nrvs
+    info['shared'] = any(sum(1 for b2 in spec['layouts'][0] if b2['sym'] == b['sym']) > 1
+                         for b in spec['layouts'][0]) if spec['layouts'] else False
     sq = {}
     diag_ok = True
     for d in rvs:
         if isinstance(d, JointNormalDistribution):
             A = d.variance.subs(minits).to_numpy()
-            psd_tab.append(ct.pair(qmat(A), ct.boolean(bool(is_positive_semidefinite(A)))))
             for i in range(len(A)):
                 if not A[i, i] > 0:
                     diag_ok = False
@@ -691,15 +869,12 @@ def observe_num(spec, mutate=None):
     from_ucp = {}
     free = [p.name for p in model.parameters if not p.fix]
     try:
-        if mutate:
-            sc = est.calculate_ucp_scale(model)
-        else:
-            sc = calculate_ucp_scale(model)
+        sc_ = calculate_ucp_scale(model)
         ucps = {n: 0.1 for n in free}
-        res = (est.calculate_parameters_from_ucp if mutate else calculate_parameters_from_ucp)(model, sc, ucps)
+        res = calculate_parameters_from_ucp(model, sc_, ucps)
         from_ucp = {k: float(v) for k, v in dict(res).items()}
         groups = []
-        for sub, S in ((model.random_variables.etas, sc.omega), (model.random_variables.epsilons, sc.sigma)):
+        for sub, S in ((model.random_variables.etas, sc_.omega), (model.random_variables.epsilons, sc_.sigma)):
             Ms = sub.covariance_matrix
             A = Ms.subs(minits).to_numpy()
             Lc = np.linalg.cholesky(A)
@@ -712,8 +887,7 @@ def observe_num(spec, mutate=None):
     except np.linalg.LinAlgError:
         pass
     info['ucp'] = ucp != 'None'
-    term = ("(mkNCase " + ct.lst(terms) + "\n " + pdict(inits) + "\n " + ct.lst(psd_tab) + "\n " + ct.lst(rep_tab)
-            + "\n " + ct.boolean(valid) + " " + pdict(nearest) + "\n " + pdict(minits) + "\n " + sdcorr + "\n "
+    term = ("(mkNCase " + ct.lst(stages) + "\n " + ct.lst(psd_tab) + "\n " + ct.lst(rep_tab) + "\n " + sdcorr + "\n "
             + ct.lst([ct.pair(fq(k), fq(v)) for k, v in sq.items()]) + " " + fq(np.exp(0.1)) + " " + fq(0.1)
             + "\n " + ucp + "\n " + pdict(from_ucp) + " " + ct.lst([names.p(x) for x in free]) + ")")
     return term, info
@@ -812,7 +986,7 @@ def _num_chunk(args):
     rng = random.Random(seed)
     out = []
     for _ in range(n):
-        spec = gen_num_spec(rng)
+        spec = gen_pheno_spec(rng) if rng.random() < 0.06 else gen_num_spec(rng)
         term, info = observe_num(spec)
         out.append((spec, term, info))
     return out
@@ -944,7 +1118,8 @@ def run(ctx):
     ctx.log('numeric cases checked')
     ctx.coverage['evaluations'] += len(nspecs)
     ctx.coverage['distinct_nontrivial'] += len({json.dumps(s, sort_keys=True) for s in nspecs
-                                                if any(len(b['names']) >= 2 for b in s['blocks'])})
+                                                if any(len(b['names']) >= 2 for lay in upgrade_num_spec(s)['layouts']
+                                                       for b in lay)})
     ctx.coverage['numeric_cases'] = len(nspecs)
     ctx.coverage['numeric_case_status'] = nstats
     clshist = {}
@@ -953,7 +1128,10 @@ def run(ctx):
             clshist[c] = clshist.get(c, 0) + 1
     ctx.coverage['input_distribution']['numeric'] = {
         'block_classes': clshist,
-        'invalid_inits_repaired': sum(1 for i in ninfos if not i['valid']),
+        'stages_with_invalid_inits_repaired': sum(1 for i in ninfos for v in i['valid'] if not v),
+        'modes': {m: sum(1 for i in ninfos if i['mode'] == m) for m in ('single', 'two_step', 'history', 'pheno')},
+        'replace_steps': {k: sum(i['steps'].count(k) for i in ninfos) for k in ('rvs', 'params', 'both', 'none', 'cjd', 'sie', 'split', 'rvs_indep', 'rvs_joint')},
+        'collections_with_shared_parameters': sum(1 for i in ninfos if i['shared']),
         'with_sdcorr': sum(1 for i in ninfos if i['sdcorr']),
         'with_ucp_roundtrip': sum(1 for i in ninfos if i['ucp']),
         'negative_cholesky_entry': sum(1 for v in nverdicts if 241 in v),
